@@ -30,6 +30,9 @@ type c10Case struct {
 	Fault    string `json:"fault"`     // read-syscall read-other write-syscall write-other timeouts link-change
 	Redial   string `json:"redial"`    // ok | notready-once
 	CancelAt string `json:"cancel_at"` // "" | "after-fault" | "in-backoff"
+	// UnicastOnly: the advertising interface is in unicast-only mode (no multicast RA is
+	// ever sent; failures are handled like on any other interface).
+	UnicastOnly bool `json:"unicast_only,omitempty"`
 }
 
 func c10Cases() []c10Case {
@@ -56,15 +59,21 @@ func c10Cases() []c10Case {
 		}
 	}
 	cs = append(cs, c10Case{Name: "adv/read-other/ok/cancel-after-fault", Fault: "read-other", Redial: "ok", CancelAt: "after-fault"})
+	for _, f := range []string{"link-change", "read-syscall", "read-other", "timeouts", "link-change-then-close"} {
+		cs = append(cs, c10Case{Name: "adv-unicast-only/" + f + "/ok", Fault: f, Redial: "ok", UnicastOnly: true})
+	}
 	// A solicited answer fails to transmit while a rate-limited multicast RA is still
 	// queued in the scheduler: the queued work must not keep the failed task alive.
 	cs = append(cs, c10Case{Name: "adv/write-unicast-pending-other/ok", Fault: "write-unicast-pending-other", Redial: "ok"},
 		c10Case{Name: "adv/write-unicast-pending-syscall/ok", Fault: "write-unicast-pending-syscall", Redial: "ok"})
+	// Two solicited answers are pending when transmissions start to fail: both fail.
+	cs = append(cs, c10Case{Name: "adv/two-writes-fail-syscall/ok", Fault: "two-writes-fail-syscall", Redial: "ok"},
+		c10Case{Name: "adv/two-writes-fail-other/ok", Fault: "two-writes-fail-other", Redial: "ok"})
 	return cs
 }
 
 func c10Recoverable(f string) bool {
-	return f == "read-syscall" || f == "write-syscall" || f == "write5-syscall" || f == "link-change" || f == "link-change+rs" || f == "link-change-at-tx" || f == "link-change-then-close" || f == "write-unicast-pending-syscall"
+	return f == "read-syscall" || f == "write-syscall" || f == "write5-syscall" || f == "link-change" || f == "link-change+rs" || f == "link-change-at-tx" || f == "link-change-then-close" || f == "write-unicast-pending-syscall" || f == "two-writes-fail-syscall"
 }
 
 func c10Scenario(c c10Case) *vsched.Scenario {
@@ -86,7 +95,9 @@ func c10Scenario(c c10Case) *vsched.Scenario {
 				returned = m.returned
 				x.Spawn("task", m.run)
 			} else {
-				a := newAdvWorld(staticCfg("eth0", 4*time.Second, 4*time.Second), true, true)
+				acfg := staticCfg("eth0", 4*time.Second, 4*time.Second)
+				acfg.UnicastOnly = c.UnicastOnly
+				a := newAdvWorld(acfg, true, true)
 				w, cancel, watchC, inject = a.world, a.cancel, a.watchC, a.inject
 				returned = func() (bool, error) { r, e, _ := a.returned(); return r, e }
 				x.Spawn("task", a.run)
@@ -101,8 +112,19 @@ func c10Scenario(c c10Case) *vsched.Scenario {
 			}
 			nw := 0
 			w.writeFault = func(fc *fconn, dst netip.Addr) error {
-				if fc.id != 0 || !strings.HasPrefix(c.Fault, "write") {
+				if fc.id != 0 || !(strings.HasPrefix(c.Fault, "write") || strings.HasPrefix(c.Fault, "two-writes-fail")) {
 					return nil
+				}
+				if strings.HasPrefix(c.Fault, "two-writes-fail") {
+					if dst.IsMulticast() {
+						return nil
+					}
+					faultAt = w.now()
+					vsched.Obs("fault", "%s", c.Fault)
+					if strings.HasSuffix(c.Fault, "syscall") {
+						return os.NewSyscallError("sendmsg", syscall.ENETDOWN)
+					}
+					return other
 				}
 				if strings.HasPrefix(c.Fault, "write-unicast-pending") {
 					if dst.IsMulticast() {
@@ -143,7 +165,7 @@ func c10Scenario(c c10Case) *vsched.Scenario {
 					vsched.Sleep(4 * time.Second)
 				}
 				vsched.Mark()
-				if !strings.HasPrefix(c.Fault, "write") {
+				if !strings.HasPrefix(c.Fault, "write") && !strings.HasPrefix(c.Fault, "two-writes-fail") {
 					faultAt = w.now()
 					vsched.Obs("fault", "%s", c.Fault)
 				}
@@ -177,6 +199,10 @@ func c10Scenario(c c10Case) *vsched.Scenario {
 					// The watcher reports a change and then halts (closes its channels).
 					vsched.Send("harness:link-change", watchC, netstate.LinkDown)
 					vsched.Close("harness:watcher-halts", watchC)
+				case "two-writes-fail-syscall", "two-writes-fail-other":
+					vsched.Sleep(1500 * time.Millisecond) // 6.5s: no multicast RA is due around here
+					inject(rsFrom("fe80::5", true))
+					inject(rsFrom("fe80::6", true)) // both answers are due at once; both transmissions fail
 				case "write-unicast-pending-other", "write-unicast-pending-syscall":
 					vsched.Sleep(1100 * time.Millisecond) // a multicast RA went out at 6s
 					inject(rsFrom("::", false))           // its answer is held back until 9s
@@ -321,7 +347,7 @@ func c10Scenario(c c10Case) *vsched.Scenario {
 						got = true
 					}
 				}
-				if !got {
+				if !got && !c.UnicastOnly {
 					bad("C10:no-initial-ra-after-redial", "the re-established connection did not get an initial multicast RA")
 				}
 				nm, nu := 0, 0
@@ -334,7 +360,11 @@ func c10Scenario(c c10Case) *vsched.Scenario {
 						}
 					}
 				}
-				if nm < 2 || nu != 1 {
+				if c.UnicastOnly {
+					if nm != 0 || nu != 1 {
+						bad("C10:not-serving-after-redial", "unicast-only: after the re-dial the new connection carried %d multicast RAs (want none) and %d answers to the solicitation sent 1.5s after the fault (want 1)", nm, nu)
+					}
+				} else if nm < 2 || nu != 1 {
 					bad("C10:not-serving-after-redial", "after the re-dial the new connection carried %d multicast RAs (want the initial one and at least one periodic) and %d answers to the solicitation sent 1.5s after the fault (want 1): the task looks alive but does not serve", nm, nu)
 				}
 			}
@@ -368,7 +398,7 @@ func c10Scenario(c c10Case) *vsched.Scenario {
 func TestVerifC10(t *testing.T) {
 	r := ev.Begin("C10", "teardown")
 	defer r.End(t)
-	r.Rule = "executions = goroutine schedules within the deviation bound of the instrumented real Advertiser and Monitor (real Dialer, real dial() over fakes) with one fault injected while running: ReadFrom error (syscall / other), 3rd WriteTo error (syscall / other), five receive timeouts, eight isolated receive timeouts each followed by a received message (no failure: nothing may be torn down), a link-state change (also followed by the watcher halting, together with a solicitation, and at the instant a held-back multicast RA is due; the last two also at bound 2 in the quick tier); x re-dial answers {ok, link-not-ready once}; x cancellation {none, right after the fault, during the back-off}; oracle on the ordered log: recoverable => old connection cleaned up (left group + closed once) then a new one opened within 1s, given an initial RA, a periodic RA and an answer to a solicitation sent after the re-dial, unrecoverable => Run returns an error within 1s after cleanup, never any I/O on the old connection after close / re-dial / return, cancellation => return within 1s (nil during back-off)"
+	r.Rule = "executions = goroutine schedules within the deviation bound of the instrumented real Advertiser and Monitor (real Dialer, real dial() over fakes) with one fault injected while running: ReadFrom error (syscall / other), 3rd WriteTo error (syscall / other), five receive timeouts, eight isolated receive timeouts each followed by a received message (no failure: nothing may be torn down), a link-state change (also followed by the watcher halting, together with a solicitation, and at the instant a held-back multicast RA is due; the last two also at bound 2 in the quick tier); x re-dial answers {ok, link-not-ready once}; x cancellation {none, right after the fault, during the back-off}; + 5 of the faults on a unicast-only advertiser; oracle on the ordered log: recoverable => old connection cleaned up (left group + closed once) then a new one opened within 1s, given an initial RA, a periodic RA and an answer to a solicitation sent after the re-dial, unrecoverable => Run returns an error within 1s after cleanup, never any I/O on the old connection after close / re-dial / return, cancellation => return within 1s (nil during back-off)"
 	opts := exploreOpts{Bound: 1}
 	if r.Thorough() {
 		opts.Bound = 2
@@ -381,7 +411,7 @@ func TestVerifC10(t *testing.T) {
 		// deviations) also at bound 2.
 		var cs []c10Case
 		for _, c := range c10Cases() {
-			if !c.Monitor && c.Redial == "ok" && (c.Fault == "link-change+rs" || c.Fault == "link-change-at-tx") {
+			if !c.Monitor && c.Redial == "ok" && (c.Fault == "link-change+rs" || c.Fault == "link-change-at-tx" || strings.HasPrefix(c.Fault, "two-writes-fail")) {
 				cs = append(cs, c)
 			}
 		}
